@@ -3,6 +3,7 @@ import Refinery.Model.Metrics
 /-
 Oracle for `metrics.MultiMetrics` (C33).
 case args: children=<0|1|2>   (child backends only receive forwarded calls; ignored by the model)
+           register=keep    optional: replay against the repaired model (`step true`)
 ops (names are opaque tokens):
   register <name> <counter|gauge|histogram|updown>
   increment <name> | count <name> <n> | gauge <name> <v> | histogram <name> <v>
@@ -84,12 +85,16 @@ def optStr : Option Int → String
   | none => "none"
   | some v => s!"some:{v}"
 
-def mStep (s : St String) (op : List String) (_ : List (List String)) : St String × Option String :=
+/-- state: (`keep` flag of the model, store).  `keep` is false (the code as it is) unless the case
+header says `register=keep` (used to check the proposed repair against the repaired model). -/
+def mStep (ks : Bool × St String) (op : List String) (_ : List (List String)) :
+    (Bool × St String) × Option String :=
+  let (keep, s) := ks
   match parseOp op with
-  | .bad => (s, some "bad-op")
-  | .burst l => (runFrom false s l, some "done")
-  | .one (.get n) => (s, some (optStr (get s n)))
-  | .one o => (step false s o, none)
+  | .bad => (ks, some "bad-op")
+  | .burst l => ((keep, runFrom keep s l), some "done")
+  | .one (.get n) => (ks, some (optStr (get s n)))
+  | .one o => ((keep, step keep s o), none)
 
 /-! ## Monitor -/
 
@@ -203,8 +208,8 @@ def mMon (m : MSt) (op : List String) (_ : List (List String)) (obs : Option Str
         (AList.put m n r', f1 ++ f2)
   | .one o => (note m o, [])
 
-def comp : Component (St String) MSt where
-  init := fun _ => {}
+def comp : Component (Bool × St String) MSt where
+  init := fun args => ((kv args "register") == some "keep", {})
   step := mStep
   minit := fun _ => []
   mon := mMon
